@@ -53,6 +53,7 @@ def tensor_case(rng, syms, with_bubble):
     from discopy.tensor import Dim, Id
     g = pl.TensorGen(rng, syms, polyonly=rng.random() < 0.6)
     if not with_bubble:
+        g.repeat = 0.35         # the same box object again at another offset / depth
         d, _ = g.diagram(rng.randint(1, 4))
         return d, "plain", False, False
     # single-wire bubble: inside : Dim(a) -> Dim(b)
@@ -205,10 +206,23 @@ def scalar_kinds(c, var):
     return pure, mixed
 
 
-def check_circuit(rep, rng, syms, c, mode):
+def repeated_param_boxes(c):
+    """Number of boxes with free symbols that are equal to an earlier box of the circuit."""
+    seen, n = [], 0
+    for b in c.boxes:
+        if getattr(b, "free_symbols", None):
+            if any(b == x for x in seen):
+                n += 1
+            seen.append(b)
+    return n
+
+
+def check_circuit(rep, rng, syms, c, mode, jacobian=True):
     """mode 'pure': grad(mixed=False) on a pure circuit, amplitudes; 'default': grad(x), CQ maps."""
     desc = dict(family=mode, diagram=repr(c)[:500])
     mixed = mode == "default"
+    if repeated_param_boxes(c):
+        rep.count("circuit_with_repeated_equal_gate:" + mode)
     try:
         ev = c.eval(mixed=mixed)
     except Exception as exc:
@@ -257,6 +271,9 @@ def check_circuit(rep, rng, syms, c, mode):
     # sum always has bit and qubit wires and is evaluated as a CQ map; with mixed=False the terms
     # are amplitude gradients, whose CQ evaluation is not a derivative of anything (not claimed).
     if not mixed:
+        return
+    if not jacobian:
+        rep.count("jacobian_left_to_thorough:2_qubits")
         return
     vs = [v for v in syms]
     rng.shuffle(vs)
@@ -333,7 +350,10 @@ def model_stream(rep, drv, rng, n_cases):
     rep.extra["model_fix_flag(F9f)"] = flag
     for _ in range(n_cases):
         g = pl.TensorGen(random.Random(rng.getrandbits(64)), syms, polyonly=True, maxdim=6)
+        g.repeat = 0.3
         d, spec = g.diagram(g.rng.randint(1, 3), plain_only=True)
+        if any(l.get("repeated") for l in spec["layers"]):
+            rep.count("model_case:repeated_box")
         tok = tok_pdiagram(spec, syms)
         vi = g.rng.randrange(NV)
         order = list(range(NV))
@@ -484,7 +504,10 @@ def run(tier, seed, replay=None):
                 "polynomial bubbles alone and inside diagrams), pure circuits (grad(mixed=False), "
                 "amplitudes) and pure+mixed circuits (default parameter-shift grad, CQ maps) over "
                 "Rx/Ry/Rz/CRz/CRx/CU1/scalars with affine, polynomial and non-linear phases in 3 real "
-                "symbols occurring repeatedly; every symbol of the pool differentiated (absent ones "
+                "symbols occurring repeatedly, the SAME parametrised gate / box object occurring several "
+                "times at different offsets and depths (generators re-use earlier boxes with p = 0.35; "
+                "families repeat_pure / repeat_default build g .. sep .. g, g @ g, g >> CX >> g, shifted "
+                "controlled rotations); every symbol of the pool differentiated (absent ones "
                 "must give the empty sum); jacobians over 0-3 shuffled variables; non-trivial = the "
                 "diagram depends on the symbol and has >= 2 boxes (tensor: >= 1); distinct by "
                 "(diagram, symbol)")
@@ -527,8 +550,10 @@ def run(tier, seed, replay=None):
             check_tensor(rep, r, syms, d, kind, hb, comp)
         else:
             check_circuit(rep, r, syms, mk(), fam)
-    plan = [("tensor", 30), ("bubble", 16), ("pure", 12), ("default_pure", 4), ("default_mixed", 4)] if quick \
-        else [("tensor", 160), ("bubble", 80), ("pure", 60), ("default_pure", 28), ("default_mixed", 22)]
+    plan = [("tensor", 30), ("bubble", 16), ("repeat_pure", 8), ("repeat_default", 3), ("pure", 12),
+            ("default_pure", 4), ("default_mixed", 4)] if quick \
+        else [("tensor", 160), ("bubble", 80), ("repeat_pure", 50), ("repeat_default", 16), ("pure", 60),
+              ("default_pure", 28), ("default_mixed", 22)]
     walls = {"witnesses": round(time.time() - t0, 2)}
     for fam, n in plan:
         t0 = time.time()
@@ -538,8 +563,21 @@ def run(tier, seed, replay=None):
                 d, kind, hb, comp = tensor_case(r, syms, fam == "bubble")
                 rep.sample(dict(family=fam, diagram=str(d)[:300]))
                 check_tensor(rep, r, syms, d, kind, hb, comp)
+            elif fam == "repeat_pure":
+                # the SAME parametrised gate several times: every occurrence needs its own term
+                c, kind = pl.repeated_gate_circuit(r, syms, max_qubits=3)
+                rep.count(kind.rsplit(":", 1)[0])
+                rep.sample(dict(family=fam, diagram=repr(c)[:300]))
+                check_circuit(rep, r, syms, c, "pure")
+            elif fam == "repeat_default":
+                # CQ evaluation of the sums costs seconds per 2-qubit case inside discopy: quick = 1 qubit
+                nq = 2 if (not quick and r.random() < 0.5) else 1
+                c, kind = pl.repeated_gate_circuit(r, syms, two_qubit_rotations=False,
+                                                   max_qubits=nq, small=True)
+                rep.count(kind.rsplit(":", 1)[0])
+                check_circuit(rep, r, syms, c, "default")
             elif fam == "pure":
-                c, _ = pl.CircuitGen(r, syms, mixed=False, max_qubits=2).circuit(r.randint(2, 5))
+                c, _ = pl.CircuitGen(r, syms, mixed=False, max_qubits=2, repeat=0.35).circuit(r.randint(2, 5))
                 rep.sample(dict(family=fam, diagram=repr(c)[:300]))
                 check_circuit(rep, r, syms, c, "pure")
             else:
@@ -548,9 +586,11 @@ def run(tier, seed, replay=None):
                 nq = 1 if r.random() < (0.75 if quick else 0.5) else 2
                 gen = pl.CircuitGen(r, syms, mixed=mixed, max_qubits=nq, rot2=r.random() < 0.3,
                                     scalars=r.random() < 0.5, bits=0.0,
-                                    ket=(0.9 if quick else 0.6))
+                                    ket=(0.9 if quick else 0.6), repeat=0.35)
                 c, _ = gen.circuit((2 if quick else r.randint(2, 3)) if nq == 2 else r.randint(2, 4))
-                check_circuit(rep, r, syms, c, "default")
+                # quick: the jacobian (a second CQ evaluation of a sum, several seconds on 2 qubits)
+                # is taken on the 1-qubit cases only
+                check_circuit(rep, r, syms, c, "default", jacobian=not (quick and nq == 2))
         walls[fam] = round(time.time() - t0, 2)
     rep.extra["family_wall_s"] = walls
     return rep.finish()
